@@ -219,7 +219,8 @@ let () =
           [ ("mon_start_once", true, Mon.mon_start_once);
             ("mon_start_distinct", Mon.unique_params env, Mon.mon_start_distinct);
             ("mon_gate_after_start", true, Mon.mon_gate_after_start);
-            ("mon_barrier", Mon.unique_params env, Mon.mon_barrier) ] in
+            ("mon_barrier", Mon.unique_params env, Mon.mon_barrier);
+            ("mon_reply_once", true, Mon.mon_reply_once) ] in
         let nmon = ref 0 in
         let mon_rejected = ref false in
         List.iter (fun (name, hyp, m) ->
@@ -231,7 +232,9 @@ let () =
               end
             end) mons;
         (match !cfg with
-         | _ when amb -> Printf.printf "OK %s skipped: a member with several defects (any of them may be reported)\n" !hdr
+         | _ when amb ->
+           if not !mon_rejected then
+             Printf.printf "OK %s skipped: a member with several defects (any of them may be reported) monitors=%d\n" !hdr !nmon
          | _ when !policy = "race" ->
            (* racing mode has no windows: the log is judged by the property monitors only *)
            if not !mon_rejected then Printf.printf "OK %s skipped racing-log (monitors only) monitors=%d\n" !hdr !nmon
